@@ -267,6 +267,8 @@ pub struct Device {
     pub port_times_override: Option<[u32; 4]>,
     al_pending: Option<(u8, u32)>,
     al_fallback: Option<(u32, u8)>,
+    /// Every read of AL status: (global sequence number, the byte at 0x0130 the read returned).
+    pub al_read_log: Vec<(u64, u8)>,
 
     /// SII read command returns 8 bytes (else 4).
     pub sii_read_8: bool,
@@ -311,6 +313,13 @@ fn overlaps(ado: u16, len: usize, start: u16, size: usize) -> bool {
     a0 < b1 && b0 < a1
 }
 
+static AL_READ_SEQ: std::sync::atomic::AtomicU64 = std::sync::atomic::AtomicU64::new(0);
+
+/// The sequence number the next AL status read (of any device) gets.
+pub fn al_read_seq() -> u64 {
+    AL_READ_SEQ.load(std::sync::atomic::Ordering::Relaxed)
+}
+
 /// Context of one datagram at one device.
 #[derive(Debug, Clone, Copy)]
 struct Ctx {
@@ -347,6 +356,7 @@ impl Device {
             port_times_override: None,
             al_pending: None,
             al_fallback: None,
+            al_read_log: Vec::new(),
             sii_read_8: false,
             sii_busy_polls: 0,
             sii_write_errors: 0,
@@ -582,6 +592,9 @@ impl Device {
         if overlaps(ado, len, reg::AL_STATUS, 2) {
             self.mem[0x130] = (self.al_state & 0x0F) | if self.al_error { 0x10 } else { 0 };
             self.mem[0x131] = 0;
+        }
+        if overlaps(ado, len, reg::AL_STATUS, 1) {
+            self.al_read_log.push((AL_READ_SEQ.fetch_add(1, std::sync::atomic::Ordering::Relaxed), self.mem[0x130]));
         }
         if overlaps(ado, len, reg::AL_STATUS_CODE, 2) {
             let c = self.al_status_code.to_le_bytes();
